@@ -27,6 +27,8 @@
 (*   cdur[j]  duration of the clean-up a cancelled body performs           *)
 (*   scdur[j] duration of the clean-up a cancelled co_shutdown() performs  *)
 (*   pure     the top is a PureScheduler (never raises)                    *)
+(*   ucancel  instant at which the caller cancels the task running the     *)
+(*            top-level co_run() (-1 = never)                              *)
 (*   horizon  last instant considered in free mode (dur = -2)              *)
 (***************************************************************************)
 EXTENDS Integers, FiniteSets, Sequences, TLC
@@ -49,7 +51,7 @@ CfgOf(J) ==
     req |-> [i \in 1..J.n |-> RangeOf(J.req[i])],
     crit |-> J.crit, forever |-> J.forever, win |-> J.win, tmo |-> J.tmo,
     stmo |-> J.stmo, dur |-> J.dur, out |-> J.out, sdur |-> J.sdur,
-    cdur |-> J.cdur, scdur |-> J.scdur, horizon |-> J.horizon ]
+    cdur |-> J.cdur, scdur |-> J.scdur, horizon |-> J.horizon, ucancel |-> J.ucancel ]
 
 Min(T) == CHOOSE t \in T : \A u \in T : t <= u
 Max(T) == CHOOSE t \in T : \A u \in T : t >= u
@@ -96,6 +98,7 @@ InitS(C) ==
     creq |-> [n \in Nodes(C) |-> FALSE],
     relayed |-> [n \in Nodes(C) |-> FALSE],
     proc |-> {},
+    ucf |-> FALSE,
     t0  |-> [n \in Nodes(C) |-> IF n = Root THEN 0 ELSE -1],
     tc  |-> [n \in Nodes(C) |-> -1],
     te  |-> [n \in Nodes(C) |-> IF n = Root /\ Kids(C, Root) = {} THEN 0 ELSE -1],
@@ -182,6 +185,12 @@ JobEndF(C, X, j, o) ==
 (* CancelDone(j): a cancelled body has finished its clean-up               *)
 CancelDoneG(C, X, j) == IsJob(C, j) /\ X.st[j] = "cancelling" /\ X.now >= X.tc[j] + C.cdur[j]
 CancelDoneF(C, X, j) == [X EXCEPT !.st[j] = "cancelled", !.te[j] = X.now]
+
+(* UserCancel: the caller cancels the task that runs the top-level co_run()  *)
+(* (e.g. asyncio.wait_for around it): the same one-level cancellation a      *)
+(* nested run gets from its parent                                           *)
+UserCancelG(C, X) == C.ucancel >= 0 /\ ~X.ucf /\ X.now >= C.ucancel /\ X.pc[Root] # "over"
+UserCancelF(C, X) == [CancelTasks(C, X, {Root}) EXCEPT !.ucf = TRUE]
 
 (* Abort(s, why): cancel every live child, then wait for them (_tidy_tasks)*)
 AbortF(C, X, s, why) ==
@@ -301,6 +310,7 @@ AnyInstant(C, X) ==
   \/ \E j \in Nodes(C) : \/ AdmitG(C, X, j) \/ CancelDoneG(C, X, j) \/ HandlerEndG(C, X, j)
                          \/ HandlerCancelDoneG(C, X, j)
                          \/ (JobEndG(C, X, j) /\ C.dur[j] >= 0)
+  \/ UserCancelG(C, X)
   \/ \E s \in Scheds(C) : \/ (MainG(C, X, s) /\ Unseen(C, X, s) # {})
                           \/ TimeoutG(C, X, s) \/ TidyDoneG(C, X, s) \/ ShutJoinG(C, X, s)
                           \/ ShutExpireG(C, X, s) \/ CancelPropG(C, X, s) \/ RelayG(C, X, s)
@@ -313,6 +323,7 @@ Alarms(C, X) ==
   \cup {X.ts[j] + C.sdur[j] : j \in {x \in Jobs(C) : X.sh[x] = "running" /\ C.sdur[x] >= 0}}
   \cup {X.tsc[j] + C.scdur[j] : j \in {x \in Jobs(C) : X.sh[x] = "cing"}}
   \cup {X.sdl[s] : s \in {x \in Scheds(C) : ShutTimerLive(C, X, x)}}
+  \cup (IF C.ucancel >= 0 /\ ~X.ucf /\ X.pc[Root] # "over" THEN {C.ucancel} ELSE {})
   \cup (IF (\E j \in Jobs(C) : X.st[j] = "running" /\ C.dur[j] = -2) /\ X.now < C.horizon
         THEN {X.now + 1} ELSE {})
 
@@ -347,6 +358,7 @@ Acts(C, X) ==
                  s \in {x \in Scheds(C) : ShutJoinG(C, X, x)}}
   \cup {Act("ShutExpire", s) : s \in {x \in Scheds(C) : ShutExpireG(C, X, x)}}
   \cup {Act("ShutCancelProp", s) : s \in {x \in Scheds(C) : ShutCancelPropG(C, X, x)}}
+  \cup (IF UserCancelG(C, X) THEN {Act("UserCancel", 0)} ELSE {})
   \cup (IF TickG(C, X) THEN {Act("Tick", 0)} ELSE {})
 ActOK(C, a) == a[1] = "JobEnd" => OutOK(C, a[2], a[4])
 Apply(C, X, a) ==
@@ -363,6 +375,7 @@ Apply(C, X, a) ==
     [] a[1] = "ShutJoin"   -> ShutJoinF(C, X, a[2], a[5])
     [] a[1] = "ShutExpire" -> ShutExpireF(C, X, a[2])
     [] a[1] = "ShutCancelProp" -> ShutCancelPropF(C, X, a[2])
+    [] a[1] = "UserCancel" -> UserCancelF(C, X)
     [] a[1] = "Tick"       -> TickF(C, X)
 
 -----------------------------------------------------------------------------
@@ -383,12 +396,14 @@ ShutJoin(s)   == ShutJoinG(cfg, S, s) /\ \E k \in Culprits(cfg, S, s) : S' = Shu
 ShutExpire(s) == ShutExpireG(cfg, S, s) /\ S' = ShutExpireF(cfg, S, s)
 ShutCancelProp(s) == ShutCancelPropG(cfg, S, s) /\ S' = ShutCancelPropF(cfg, S, s)
 Tick          == TickG(cfg, S) /\ S' = TickF(cfg, S)
+UserCancel    == UserCancelG(cfg, S) /\ S' = UserCancelF(cfg, S)
 
 Step ==
   \/ \E j \in Nodes(cfg) : Admit(j) \/ JobEnd(j) \/ CancelDone(j) \/ HandlerEnd(j) \/ HandlerCancelDone(j)
   \/ \E s \in Scheds(cfg) : \/ Process(s) \/ Timeout(s) \/ CancelProp(s) \/ TidyDone(s)
                             \/ Relay(s) \/ ShutJoin(s) \/ ShutExpire(s) \/ ShutCancelProp(s)
   \/ Tick
+  \/ UserCancel
 
 Next == UNCHANGED cfg /\ Step
 
